@@ -319,7 +319,7 @@ const FP: &str = "sha-256 9F:5D:2B:A1:00:11:22:33:44:55:66:77:88:99:AA:BB:CC:DD:
 
 fn ice_block() -> String {
     format!(
-        "a=candidate:1 1 udp 2122260223 192.0.2.1 50000 typ host\r\n\
+        "a=candidate:1 1 udp 2122260223 192.0.2.1 50000 typ host generation 0 ufrag abcd network-cost 999\r\n\
          a=ice-ufrag:abcd\r\n\
          a=ice-pwd:0123456789abcdef01234567\r\n\
          a=fingerprint:{FP}\r\n\
@@ -343,6 +343,7 @@ pub fn sdp_webrtc() -> String {
          {ice}\
          a=mid:0\r\n\
          a=extmap:1 urn:ietf:params:rtp-hdrext:sdes:mid\r\n\
+         a=extmap:2/sendrecv urn:ietf:params:rtp-hdrext:ssrc-audio-level\r\n\
          a=sendrecv\r\n\
          a=rtcp-mux\r\n\
          a=rtpmap:111 opus/48000/2\r\n\
@@ -363,7 +364,9 @@ pub fn sdp_webrtc() -> String {
          a=fmtp:96 level-asymmetry-allowed=1;packetization-mode=1;profile-level-id=42e01f\r\n\
          a=rtpmap:97 rtx/90000\r\n\
          a=fmtp:97 apt=96\r\n\
+         a=ssrc-group:FID 7654321 7654322\r\n\
          a=ssrc:7654321 cname:abc\r\n\
+         a=ssrc:7654322 cname:abc\r\n\
          m=application 9 UDP/DTLS/SCTP webrtc-datachannel\r\n\
          c=IN IP4 0.0.0.0\r\n\
          {ice}\
@@ -396,8 +399,9 @@ pub fn sdp_simulcast() -> String {
          a=fmtp:97 apt=96\r\n\
          a=ssrc:7654321 cname:abc\r\n\
          a=rid:hi send pt=96;max-width=1280\r\n\
+         a=rid:mid send pt=96;max-width=640\r\n\
          a=rid:lo send pt=96;max-width=320\r\n\
-         a=simulcast:send hi;lo\r\n"
+         a=simulcast:send hi,mid;~lo\r\n"
     )
 }
 
